@@ -112,6 +112,12 @@ def exit_rule(ctx, R):
     P = ctx.P
     f, cfg, loop = _satisfy_loop(ctx)
     test = loop["stmt"].test
+    # the loop test is the only way out: a break / return inside the body (an iteration budget, a time-out) leaves
+    # constraints violated that the test would still have merged
+    early = [n for n in ast.walk(ast.Module(body=list(loop["stmt"].body), type_ignores=[])) if isinstance(n, (ast.Break, ast.Return))]
+    inner_loops = [n for n in ast.walk(ast.Module(body=list(loop["stmt"].body), type_ignores=[])) if isinstance(n, (ast.For, ast.While))]
+    early = [n for n in early if not any(n in list(ast.walk(l)) for l in inner_loops if isinstance(n, ast.Break))]
+    R.check(not early, "VPSC.EXIT", "Solver.satisfy|no other exit", where(f, early[0]) if early else where(f), "the merge loop ends only through its test", "the merge loop can be left by `%s` while its test still holds: constraints that are still violated stay unmerged (infeasible result)" % (ntext(early[0]) if early else ""))
     ev = new_eval(P, inline_filter=lambda fn: False)
     st = ev.new_state(f)
     s = Opaque("self", cls=P.cls(S), kind="obj")
